@@ -160,7 +160,8 @@ def main(tier: str) -> int:
                 fit = [0.5 + 1e-13 * rng.randint(0, 3) + (0.25 if rng.random() < 0.3 else 0.0) for _ in range(n)]
             t = rng.randint(1, n) if s % 12 != 6 else rng.choice([n, n, 2])
             numba_seed(s)
-            win = int(tournament_selection(np.array(fit, dtype=np.float64), np.array(fit, dtype=np.float64), np.int64(t), np.int64(1))[0])
+            rank_arg = [np.array(fit, dtype=np.float64), np.zeros(n), -np.array(fit, dtype=np.float64), np.arange(n, dtype=np.float64)][(s // 6) % 4]   # the rank argument is unused by a tournament
+            win = int(tournament_selection(np.array(fit, dtype=np.float64), rank_arg, np.int64(t), np.int64(1))[0])
             chk.count("tournament" if s % 12 != 6 else "tournament_near_ties")
             others = sum(1 for j in range(n) if j != win and fit[j] <= fit[win])
             if not (0 <= win < n and others >= t - 1 and (t < n or fit[win] == max(fit))):
@@ -238,7 +239,8 @@ def main(tier: str) -> int:
             low = rng.randint(-5, 5)
             high = low + rng.randint(1, 9)
             numba_seed(s)
-            out = [int(x) for x in randint(np.int64(low), np.int64(high), np.int64(4))]
+            sz = (4, 1, 2, 7)[(s // 6) % 4]          # "all sizes": a single draw too
+            out = [int(x) for x in randint(np.int64(low), np.int64(high), np.int64(sz))]
             chk.count("randint")
             if not all(low <= x < high for x in out):
                 chk.fail("randint left [low, high)", {"low": low, "high": high, "seed": s, "out": out}, {"fn": "randint"})
@@ -250,8 +252,11 @@ def main(tier: str) -> int:
             low = rng.uniform(-3, 3)
             high = low + rng.choice([0.0, 1e-9, 1.0, 7.5])
             numba_seed(s)
-            out = [float(x) for x in uniform(np.float64(low), np.float64(high), np.int64(4))]
+            sz = (4, 1, 2, 7)[(s // 6) % 4]
+            out = [float(x) for x in uniform(np.float64(low), np.float64(high), np.int64(sz))]
             chk.count("uniform")
+            if len(out) != sz:
+                chk.fail("uniform does not return the requested number of draws", {"low": low, "high": high, "size": sz, "returned": len(out)}, {"fn": "uniform"})
             if not all(low <= x <= high for x in out):
                 chk.fail("uniform left [low, high]", {"low": low, "high": high, "seed": s, "out": out}, {"fn": "uniform"})
             chk.case(("un", round(low, 6), round(high, 6)))
